@@ -697,7 +697,7 @@ Definition finish_part (fuel : nat) (ty : stype) (meta : option bool) (key : opt
   else parts_loop fuel ty meta key c5 (parts ++ [p]) false rsp.
 
 Lemma atom_lead lay a : atom_ok a = true ->
-  exists x s, print_atom lay a = x :: s /\ existsb (N.eqb x) (46%N :: WSCH ++ [124; 58; 44; 93; 125; 91; 123; 61; 42; 40; 41; 47]%N) = false.
+  exists x s, print_atom lay a = x :: s /\ existsb (N.eqb x) (46%N :: WSCH ++ [124; 58; 44; 93; 125; 91; 123; 61; 42; 40; 41]%N) = false.
 Proof.
   destruct a as [t|q b|q b]; cbn [atom_ok print_atom]; intro H.
   - destruct (tok_ok_parts t H) as (x & t' & -> & Hx & _). exists x, t'. split; [reflexivity|].
